@@ -312,8 +312,8 @@ pub fn run(rc: &mut RunCtx) {
     let seed = rc.seed;
     let (docs, max_len) = rc.pick((90u64, 13u64), (300u64, 16u64));
     rc.run_indexed(STAGES[0], docs, false, &|k| Input::Args(vec![seed, k, max_len]));
-    rc.run_pt(STAGES[1], rc.pick(160_000, 3_000_000), (96, 600));
-    rc.run_pt(STAGES[2], rc.pick(80_000, 1_500_000), (96, 600));
+    rc.run_pt(STAGES[1], rc.pick(640_000, 3_000_000), (96, 600));
+    rc.run_pt(STAGES[2], rc.pick(320_000, 1_500_000), (96, 600));
     rc.require_label("random_schedules", "capacity_below_16", 50_000);
     rc.require_label("eof_pauses", "has_pause", 300_000);
     rc.require_label("eof_pauses", "none_then_more_items", 50_000);
